@@ -203,7 +203,7 @@ func (fv *FuncVC) havocKeys(st *State, keys []string, all bool) {
 		st.epoch = 1000000 + fv.ctx.nfresh
 	} else {
 		for _, k := range keys {
-			fv.m.heapHavoc(st, HeapKey{k, heapKeySorts[k]})
+			fv.m.heapHavoc(st, HeapKey{Key: k, Sort: heapKeySorts[k]})
 		}
 	}
 	old := st.cnt
@@ -553,7 +553,7 @@ func (fv *FuncVC) readKeys(spec string, pkg *types.Package) []HeapKey {
 		if spec[i+2:] == "*" || s.Field(j).Name() == spec[i+2:] {
 			if isStructLike(s.Field(j).Type()) {
 				for _, k := range fv.allKeysOfType(s.Field(j).Type(), map[types.Type]bool{}) {
-					out = append(out, HeapKey{k, heapKeySorts[k]})
+					out = append(out, HeapKey{Key: k, Sort: heapKeySorts[k]})
 				}
 				continue
 			}
@@ -578,7 +578,7 @@ func (fv *FuncVC) ghostKeys(g *GhostDef) []HeapKey {
 	cs := fv.m.Flatten(t)
 	out := make([]HeapKey, len(cs))
 	for i, c := range cs {
-		out[i] = HeapKey{"G$" + g.Name + sanitize(c.Path), c.Sort}
+		out[i] = HeapKey{Key: "G$" + g.Name + sanitize(c.Path), Sort: c.Sort}
 	}
 	return fv.m.regKeys(out)
 }
